@@ -35,6 +35,19 @@ PG = "sleap_nn.inference.paf_grouping"
 TRAVERSALS = {"networkx.bfs_edges", "networkx.dfs_edges", "networkx.edge_bfs", "networkx.edge_dfs"}
 
 
+def _index_of_part(e: ast.AST):
+    """x when `e` is the position of node name x in self.part_names: self.part_names.index(x), or a lookup in
+    {name: i for i, name in enumerate(self.part_names)} (node names of a skeleton are unique)."""
+    if isinstance(e, ast.Call) and isinstance(e.func, ast.Attribute) and e.func.attr == "index" and norm(e.func.value) == "self.part_names" and len(e.args) == 1:
+        return norm(e.args[0])
+    if isinstance(e, ast.Subscript) and isinstance(e.value, ast.DictComp) and len(e.value.generators) == 1:
+        c, g = e.value, e.value.generators[0]
+        if not g.ifs and isinstance(g.iter, ast.Call) and norm(g.iter.func) == "enumerate" and len(g.iter.args) == 1 and norm(g.iter.args[0]) == "self.part_names" \
+                and isinstance(g.target, ast.Tuple) and len(g.target.elts) == 2 and norm(c.key) == norm(g.target.elts[1]) and norm(c.value) == norm(g.target.elts[0]):
+            return norm(e.slice)
+    return None
+
+
 def _single_def(fi: FunctionInfo, name: str) -> Optional[ast.AST]:
     defs = [st for st in astq.assignments_to(fi.node, name) if isinstance(st, ast.Assign)]
     return defs[0].value if len(defs) == 1 and len(astq.assignments_to(fi.node, name)) == 1 else None
@@ -211,9 +224,10 @@ def check_use(prog: Program, res: Result, rule: str = "C17-use") -> None:
     pair = None
     if ok:
         tg = bi.gens[0].target
-        elt = astq.expand_at(post.node, bi.elt, bi.site if isinstance(bi.site, ast.stmt) else astq_stmt(bi.site), keep=[norm(e) for e in tg.elts] if isinstance(tg, ast.Tuple) else [])
-        ok = isinstance(elt, ast.Tuple) and len(elt.elts) == 2 and isinstance(tg, ast.Tuple) and len(tg.elts) == 2 \
-            and norm(elt.elts[0]) == f"self.part_names.index({norm(tg.elts[0])})" and norm(elt.elts[1]) == f"self.part_names.index({norm(tg.elts[1])})"
+        elt = astq.expand_at(post.node, bi.elt, bi.site if isinstance(bi.site, ast.stmt) else astq_stmt(bi.site), keep=sorted(astq.target_names(tg)))
+        # the two ends of the iterated edge: (src, dst) unpacked, or e[0] / e[1]
+        ends = [norm(x) for x in tg.elts] if isinstance(tg, ast.Tuple) and len(tg.elts) == 2 else ([f"{tg.id}[0]", f"{tg.id}[1]"] if isinstance(tg, ast.Name) else None)
+        ok = isinstance(elt, ast.Tuple) and len(elt.elts) == 2 and ends is not None and _index_of_part(elt.elts[0]) == ends[0] and _index_of_part(elt.elts[1]) == ends[1]
         pair = elt if ok else None
     res.ob(R, ok, post.qualname, "edge_inds = (part_names.index(src), part_names.index(dst)) for every edge",
            "edge_inds is not the (source index, destination index) of every skeleton edge", post.where)
@@ -230,7 +244,7 @@ def check_use(prog: Program, res: Result, rule: str = "C17-use") -> None:
             same_loop = bi is not None and bi.gens and g0 is bi.gens[0]
             tg = g0.target
             site = bt.site if isinstance(bt.site, ast.stmt) else astq_stmt(bt.site)
-            args = [norm(astq.expand_at(post.node, a, site, keep=[norm(e) for e in tg.elts] if isinstance(tg, ast.Tuple) else [])) for a in bt.elt.args]
+            args = [norm(astq.expand_at(post.node, a, site, keep=sorted(astq.target_names(tg)))) for a in bt.elt.args]
             ok2 = bool(same_loop) and pair is not None and args == [norm(pair.elts[0]), norm(pair.elts[1])]
         res.ob(R, ok2, post.qualname, "EdgeType(src, dst) keeps source/destination order",
                f"EdgeType is built as EdgeType({', '.join(args)}): not (source index, destination index) of the same edge", post.where)
